@@ -2,7 +2,7 @@
    Model: Schema/Dsl.v - the data type mini language (Term parser, build_data_type, the printer of
    PrettyFieldDataType) and the compact field form as a serde value tree (print_field / parse_field
    with CustomField defaults, strategy merging, Null => nullable, validate_field). *)
-From Verif Require Import Dsl Dsl_proofs.
+From Verif Require Import Dsl Dsl_proofs Field_proofs.
 
 (* Full-strength statement for the field form (kept visible): evaluated inside Coq on every
    generated field of the run (RunC09.oracle: the printer model equals the crate's tree, and the
@@ -11,6 +11,17 @@ Definition normalize_null (f : YField) : YField :=
   match f with mkY n YNull _ m s => mkY n YNull true m s | _ => f end.
 Definition C09_full (valid : YField -> Prop) : Prop :=
   forall f, valid f -> parse_field (print_field f) = Some (normalize_null f).
+
+(* Proved (C09_full with valid := field_ok and the reader's normal form norm: Null fields at every
+   depth are nullable): the compact field form of every valid field tree - any nesting, every data
+   type and parameter value, metadata without the reserved key, a strategy allowed for its type -
+   is read back to the same field *)
+Theorem C09_field_roundtrip : forall f, field_ok f -> parse_field (print_field f) = Some (norm f).
+Proof. exact field_roundtrip. Qed.
+
+(* field_ok is not stronger than it looks: it implies the executable validity check *)
+Theorem C09_ok_is_valid : forall f, field_ok f -> valid_y f = true.
+Proof. exact field_ok_valid. Qed.
 
 (* Proved: every data type name the printer emits parses back to the same type - all 27
    constructors, every i32 size, every u8 precision and i8 scale, all four units, absent and
@@ -62,5 +73,15 @@ Example C09_example :
   parse_field (print_field f) = Some f.
 Proof. vm_compute. reflexivity. Qed.
 
+(* non-vacuity: the nested example field satisfies field_ok *)
+Example C09_field_ok_example :
+  field_ok (mkY (b "s") (YStruct [mkY (b "t") (YTimestamp Millisecond (Some (b "a""b\c"))) true [(b "k", b "v")] None;
+                                 mkY (b "d") (YDecimal 38 (-3)) false [] None;
+                                 mkY (b "l") (YFixedList 0 (mkY (b "element") YNull true [] (Some (b "UnknownVariant")))) false [] None;
+                                 mkY (b "m") (YMap (mkY (b "entries") (YStruct [mkY (b "key") YUtf8 false [] None; mkY (b "value") (YDict (YInt U16) YLargeUtf8) true [] None]) false [] None)) false [] None])
+               false [] (Some (b "TupleAsStruct"))).
+Proof. cbn [field_ok]. repeat split. all: try reflexivity. all: try (repeat constructor). all: try (cbn; lia). all: try (unfold i32_lo; lia). all: try (unfold i32_hi; lia). Qed.
+
+Print Assumptions C09_field_roundtrip.
 Print Assumptions C09_dsl_roundtrip.
 Print Assumptions C09_spellings.
